@@ -1,100 +1,25 @@
 import NetVerif.Model.WriteSched
 /-
-Executable model of `priorityWriteSchedulerRFC7540` (http2/writesched_priority_rfc7540.go), AS IT IS.
+Executable model of `priorityWriteSchedulerRFC7540` (http2/writesched_priority_rfc7540.go), after the
+two repairs (`CloseStream` detaches the node's queue; `OpenStream` takes an opened idle node off the
+idle list).
 
-Unlike the other schedulers, this one copies `writeQueue` *values* in and out of the pool
-(`q: *ws.queuePool.get()`, `q := n.q; ws.queuePool.put(&q)`), so two queue values can share backing
-arrays.  Queues are therefore modelled with explicit backing arrays in a heap (`HQ`, `heap`):
-slices are (array id, length), all slices start at index 0 of their array, `append` reallocates with
-Go's growth rule (capacity 0 → 1, then doubling; exact below 256 elements since a
-`FrameWriteRequest` is 32 bytes and 32·2^k are malloc size classes).
+This scheduler copies `writeQueue` *values* in and out of the pool (`q: *ws.queuePool.get()`,
+`q := n.q; ws.queuePool.put(&q); n.q = writeQueue{}`).  With the repair every backing array is owned by
+exactly one node queue or one pooled queue at any time, so queues are values (`WQ`) here as in the other
+schedulers; the pool is only a counter (`poolN`, shown by the white-box dump).
 Tree nodes are records in `store`, addressed by a node number `nid` (the Go pointer); `nodes` is the
 `map[uint32]*node`.  `kids` holds the sibling list (`kids`/`next` pointers) in order.
 `sort.Sort` is modelled as insertion sort, which is what the Go library runs for ≤ 12 elements;
 `float64` comparisons in `Less` are modelled with exact integer cross-multiplication (exact while
-`subtreeBytes < 2^40`).
+`|subtreeBytes| < 2^40`).
 Core Lean only.
 -/
 namespace NetVerif.Model.WriteSched
 
-/-- A `writeQueue` value: `currQueue` = first `clen` cells of array `ca`, `nextQueue` = first `nlen` of `na`. -/
-structure HQ where
-  ca : Option Nat := none
-  clen : Nat := 0
-  cpos : Nat := 0
-  na : Option Nat := none
-  nlen : Nat := 0
-  deriving DecidableEq, Repr
-
-abbrev Heap := List (List Frame)
-
-def Heap.cap (h : Heap) : Option Nat → Nat
-  | none => 0
-  | some a => (h.getD a []).length
-
-def Heap.get (h : Heap) (a : Option Nat) (i : Nat) : Frame :=
-  match a with
-  | none => .empty
-  | some a => (h.getD a []).getD i .empty
-
-def Heap.set (h : Heap) (a : Option Nat) (i : Nat) (f : Frame) : Heap :=
-  match a with
-  | none => h
-  | some a => List.set h a (List.set (h.getD a []) i f)
-
-/-- zero the first `n` cells of array `a` -/
-def Heap.zero (h : Heap) (a : Option Nat) (n : Nat) : Heap :=
-  match a with
-  | none => h
-  | some a => List.set h a (List.replicate (min n (h.getD a []).length) Frame.empty ++ (h.getD a []).drop n)
-
-def HQ.isEmpty (q : HQ) : Bool := q.clen - q.cpos + q.nlen == 0
-
-/-- `q.nextQueue = append(q.nextQueue, f)` -/
-def HQ.push (h : Heap) (q : HQ) (f : Frame) : Heap × HQ :=
-  let c := h.cap q.na
-  if q.nlen < c then (h.set q.na q.nlen f, { q with nlen := q.nlen + 1 })
-  else
-    let newcap := if c = 0 then 1 else 2 * c
-    let old := match q.na with
-      | none => []
-      | some a => (h.getD a []).take q.nlen
-    let arr := old ++ [f] ++ List.replicate (newcap - q.nlen - 1) Frame.empty
-    (h ++ [arr], { q with na := some h.length, nlen := q.nlen + 1 })
-
-/-- the swap at the start of `shift` -/
-def HQ.norm (q : HQ) : HQ :=
-  if q.cpos ≥ q.clen then { ca := q.na, clen := q.nlen, cpos := 0, na := q.ca, nlen := 0 } else q
-
-/-- `shift` (caller checked `!empty`) -/
-def HQ.shift (h : Heap) (q : HQ) : Heap × HQ × Frame :=
-  let q := q.norm
-  let f := h.get q.ca q.cpos
-  (h.set q.ca q.cpos .empty, { q with cpos := q.cpos + 1 }, f)
-
-/-- `peek`: the cell it points to -/
-def HQ.peekCell (q : HQ) : Option (Option Nat × Nat) :=
-  if q.cpos < q.clen then some (q.ca, q.cpos)
-  else if q.nlen > 0 then some (q.na, 0)
-  else none
-
-def HQ.consume (e : Env) (h : Heap) (q : HQ) (n : Int) : Env × Heap × HQ × Option Frame :=
-  if q.isEmpty then (e, h, q, none) else
-  match q.peekCell with
-  | none => (e, h, q, none)
-  | some (a, i) =>
-    match (h.get a i).consume e n with
-    | (_, .none) => (e, h, q, none)
-    | (e', .whole g) => let (h', q', _) := q.shift h; (e', h', q', some g)
-    | (e', .split c r) => (e', h.set a i r, q, some c)
-
-/-- `writeQueuePool.put(&q)` on a copy `q`: zero both slices, return the pooled value -/
-def HQ.put (h : Heap) (q : HQ) : Heap × HQ :=
-  ((h.zero q.ca q.clen).zero q.na q.nlen, { ca := q.ca, clen := 0, cpos := 0, na := q.na, nlen := 0 })
-
 structure Node where
   id : Nat := 0
-  q : HQ := {}
+  q : WQ := {}
   weight : Nat := 0
   state : Nat := 0          -- 0 open, 1 closed, 2 idle
   bytes : Int := 0
@@ -113,8 +38,7 @@ structure P7540 where
   maxIdle : Nat := 10
   limit : Int := maxInt32
   throttle : Bool := false
-  heap : Heap := []
-  pool : List HQ := []
+  poolN : Nat := 0                        -- len(ws.queuePool)
 
 namespace P7540
 
@@ -148,10 +72,8 @@ def addBytes (s : P7540) (n : Nat) (b : Int) : P7540 :=
     | fuel + 1, some x => up fuel (s.modNode x fun xn => { xn with sub := xn.sub + b }) (s.node x).parent
   up (s.store.length + 1) s (some n)
 
-def poolGet (s : P7540) : P7540 × HQ :=
-  match s.pool.reverse with
-  | [] => (s, {})
-  | q :: rest => ({ s with pool := rest.reverse }, q)
+/-- `ws.queuePool.get()`: always an empty queue -/
+def poolGet (s : P7540) : P7540 := { s with poolN := s.poolN - 1 }
 
 /-- `removeNode(n)` -/
 def removeNode (s : P7540) (n : Nat) : P7540 :=
@@ -179,15 +101,15 @@ def addClosedOrIdle (s : P7540) (closed : Bool) (n : Nat) : P7540 :=
   if closed then { s with closedL := l ++ [n] } else { s with idleL := l ++ [n] }
 
 def newNode (s : P7540) (id state : Nat) : P7540 × Nat :=
-  let (s, q) := s.poolGet
+  let s := s.poolGet
   let nid := s.store.length
-  ({ s with store := s.store ++ [{ id := id, q := q, weight := 15, state := state }] }, nid)
+  ({ s with store := s.store ++ [{ id := id, q := {}, weight := 15, state := state }] }, nid)
 
 def openStream (s : P7540) (id pusher : Nat) : P7540 × Res :=
   match s.lookup id with
   | some cur =>
     if (s.node cur).state != 2 then (s, .panic)
-    else (s.modNode cur fun n => { n with state := 0 }, .ok)
+    else ({ s.modNode cur (fun n => { n with state := 0 }) with idleL := s.idleL.erase cur }, .ok)
   | none =>
     let parent := (s.lookup pusher).getD 0
     let (s, nid) := s.newNode id 0
@@ -202,9 +124,8 @@ def closeStream (s : P7540) (id : Nat) : P7540 × Res :=
     if (s.node n).state != 0 then (s, .panic) else
     let s := s.modNode n fun nn => { nn with state := 1 }
     let s := s.addBytes n (-(s.node n).bytes)
-    -- `q := n.q; ws.queuePool.put(&q)`: the pool receives a COPY; `n.q` keeps its lengths
-    let (h, pq) := (s.node n).q.put s.heap
-    let s := { s with heap := h, pool := s.pool ++ [pq] }
+    -- `q := n.q; ws.queuePool.put(&q); n.q = writeQueue{}`
+    let s : P7540 := { s.modNode n (fun nn => { nn with q := {} }) with poolN := s.poolN + 1 }
     if s.maxClosed > 0 then (s.addClosedOrIdle true n, .ok) else (s.removeNode n, .ok)
 
 /-- is `n` a proper ancestor of `x`? (the loop `for x := parent.parent; x != nil; x = x.parent`) -/
@@ -213,33 +134,36 @@ def isAncestor (s : P7540) (n : Nat) : Nat → Option Nat → Bool
   | _, none => false
   | fuel + 1, some x => if x = n then true else isAncestor s n fuel (s.node x).parent
 
+/-- first half of `AdjustStream`: find the node, or create an idle one (`none`: the call returns early) -/
+def adjustFind (s : P7540) (id : Nat) : Option (P7540 × Nat) :=
+  match s.lookup id with
+  | some n => some (s, n)
+  | none =>
+    if id ≤ s.maxID ∨ s.maxIdle = 0 then none else
+    let s : P7540 := { s with maxID := id }
+    let (s, nid) := s.newNode id 2
+    let s := s.setParent! nid (some 0)
+    let s : P7540 := { s with nodes := (id, nid) :: s.nodes }
+    some (s.addClosedOrIdle false nid, nid)
+
+/-- second half of `AdjustStream`: re-link node `n` under `dep` -/
+def adjustLink (s : P7540) (n dep : Nat) (excl : Bool) (weight : Nat) : P7540 × Res :=
+  match s.lookup dep with
+  | none => ((s.setParent! n (some 0)).modNode n fun nn => { nn with weight := 15 }, .ok)
+  | some parent =>
+    if n = parent then (s, .ok) else
+    let s := if isAncestor s n (s.store.length + 1) (s.node parent).parent
+             then s.setParent! parent (s.node n).parent else s
+    let s := if excl then
+        (s.node parent).kids.foldl (fun s k => if k != n then s.setParent! k (some n) else s) s
+      else s
+    ((s.setParent! n (some parent)).modNode n fun nn => { nn with weight := weight }, .ok)
+
 def adjustStream (s : P7540) (id dep : Nat) (excl : Bool) (weight : Nat) : P7540 × Res :=
   if id = 0 then (s, .panic) else
-  let found : Option (P7540 × Nat) :=
-    match s.lookup id with
-    | some n => some (s, n)
-    | none =>
-      if id ≤ s.maxID ∨ s.maxIdle = 0 then none else
-      let s := { s with maxID := id }
-      let (s, nid) := s.newNode id 2
-      let s := s.setParent! nid (some 0)
-      let s := { s with nodes := (id, nid) :: s.nodes }
-      some (s.addClosedOrIdle false nid, nid)
-  match found with
+  match s.adjustFind id with
   | none => (s, .ok)
-  | some (s, n) =>
-    match s.lookup dep with
-    | none => ((s.setParent! n (some 0)).modNode n fun nn => { nn with weight := 15 }, .ok)
-    | some parent =>
-      if n = parent then (s, .ok) else
-      let s := if isAncestor s n (s.store.length + 1) (s.node parent).parent
-               then s.setParent! parent (s.node n).parent else s
-      let s := if excl then
-          (s.node parent).kids.foldl (fun s k => if k != n then s.setParent! k (some n) else s) s
-        else s
-      match s.setParent n (some parent) with
-      | none => (s, .panic)
-      | some s => (s.modNode n fun nn => { nn with weight := weight }, .ok)
+  | some (s, n) => s.adjustLink n dep excl weight
 
 def push (s : P7540) (f : Frame) : P7540 × Res :=
   let target : Option Nat :=
@@ -250,8 +174,7 @@ def push (s : P7540) (f : Frame) : P7540 × Res :=
   match target with
   | none => (s, .panic)
   | some n =>
-    let (h, q) := (s.node n).q.push s.heap f
-    ({ s.modNode n (fun nn => { nn with q := q }) with heap := h }, .ok)
+    (s.modNode n fun nn => { nn with q := nn.q.push f }, .ok)
 
 /-- `sortPriorityNodeSiblingsRFC7540.Less` -/
 def less (a b : Node) : Bool :=
@@ -273,10 +196,10 @@ def insertionSort (lt : Nat → Nat → Bool) (l : List Nat) : List Nat :=
 /-- the callback of `Pop` on node `n` -/
 def visit (e : Env) (s : P7540) (n : Nat) (openParent : Bool) : Env × P7540 × Option Frame :=
   let limit := if openParent then s.limit else maxInt32
-  match (s.node n).q.consume e s.heap limit with
-  | (_, _, _, none) => (e, s, none)
-  | (e', h, q, some f) =>
-    let s := { s.modNode n (fun nn => { nn with q := q }) with heap := h }
+  match (s.node n).q.consume e limit with
+  | (_, _, none) => (e, s, none)
+  | (e', q, some f) =>
+    let s := s.modNode n fun nn => { nn with q := q }
     let s := s.addBytes n f.dataSize
     let s := if openParent then
         { s with limit := if s.limit + 1024 > maxInt32 then maxInt32 else s.limit + 1024 }
